@@ -47,6 +47,17 @@ class Worklist:
     def pop_node(self) -> Node:
         return self.g.node_of(self.pop_stmt)
 
+    def init_node(self) -> Optional[Node]:
+        """The statement that seeds the stack (`S = [root]`) closest before the loop."""
+        best = None
+        for n in self.g.nodes:
+            if n.kind == "stmt" and isinstance(n.ast, (ast.Assign, ast.AnnAssign)):
+                tg = n.ast.targets[0] if isinstance(n.ast, ast.Assign) else n.ast.target
+                if isinstance(tg, ast.Name) and tg.id == self.stack and self.g.reachable(n, self.header, skip_labels=lambda l: l.startswith("exc")):
+                    if best is None or getattr(n.ast, "lineno", 0) > getattr(best.ast, "lineno", 0):
+                        best = n
+        return best
+
     def pushes(self) -> List[Tuple[Node, ast.Call]]:
         """(node, call) for `S.append(x)`; `S.extend(<elt> for … in …)` is presented as a
         synthetic `S.append(<elt>)` call (its filter conditions are in `push_sources`)."""
@@ -141,19 +152,26 @@ class Worklist:
             if len(d) != 1 or len(d[0]) != 1:
                 continue
             (a, pol), = d[0]
-            e = n.ast
-            while isinstance(e, ast.UnaryOp):
-                e = e.operand
-            if not (isinstance(e, ast.Compare) and len(e.ops) == 1 and isinstance(e.ops[0], (ast.In, ast.NotIn))):
+            mem = self._membership(n.ast)
+            if mem is None or norm(mem[1]) != memo:
                 continue
-            if norm(e.comparators[0]) != memo:
-                continue
-            k = self.key_text(e.left)
+            k = self.key_text(mem[0])
             if key is not None and k != key:
                 continue
             # pol True => the T edge means "in memo" (seen)
             out.append((n, k, "F" if pol else "T"))
         return out
+
+    def _membership(self, e: ast.expr) -> Optional[Tuple[ast.expr, ast.expr]]:
+        """(key, memo) for a test `k in M` / `k not in M` / `x is [not] None` with `x = M.get(k)` (negations stripped)."""
+        while isinstance(e, ast.UnaryOp):
+            e = e.operand
+        if isinstance(e, ast.Compare) and len(e.ops) == 1:
+            if isinstance(e.ops[0], (ast.In, ast.NotIn)):
+                return (e.left, e.comparators[0])
+            if isinstance(e.ops[0], (ast.Is, ast.IsNot)) and isinstance(e.comparators[0], ast.Constant) and e.comparators[0].value is None:
+                return self.A.memo_get(e.left, self.fi, e)
+        return None
 
     def memos(self) -> List[str]:
         """Names/attrs that are both membership-tested and marked in the loop."""
@@ -161,8 +179,10 @@ class Worklist:
         for n in self.nodes():
             if n.kind == "test":
                 for c in ast.walk(n.ast):
-                    if isinstance(c, ast.Compare) and len(c.ops) == 1 and isinstance(c.ops[0], (ast.In, ast.NotIn)):
-                        tested.add(norm(c.comparators[0]))
+                    if isinstance(c, ast.Compare):
+                        mem = self._membership(c)
+                        if mem is not None:
+                            tested.add(norm(mem[1]))
         return sorted(m for m in tested if self.marks(m))
 
     def iteration_reach(self, srcs: Sequence[Node], removed=(), removed_edges=()) -> Set[Node]:
